@@ -4,7 +4,7 @@
 From Coq Require Import List NArith ZArith Bool Lia Permutation.
 Import ListNotations.
 Require Import Verif.Lib.Wire Verif.Model.C18_base Verif.Gen.Facts_C18 Verif.Model.C18.
-Require Import Verif.Proofs.C18_kahn Verif.Proofs.C18_build Verif.Proofs.C18 Verif.Proofs.C18_rep Verif.Proofs.C18_gen.
+Require Import Verif.Proofs.C18_kahn Verif.Proofs.C18_build Verif.Proofs.C18 Verif.Proofs.C18_rep Verif.Proofs.C18_gen Verif.Proofs.C18_wire.
 
 Lemma fold_ext {A B} (f g : A -> B -> A) : (forall a b, f a b = g a b) -> forall l a, fold_left f l a = fold_left g l a.
 Proof. intros H l. induction l as [|x l IH]; intros a; simpl; [reflexivity|]. rewrite H. apply IH. Qed.
@@ -203,3 +203,114 @@ Example ex_make :
          [Pred (tx 97) 1 (PV 1); NottedP (Pred (tx 97) 1 (PV 2)); Pred (tx 98) 2 (PV 5)]
   /\ gen_pl_make pl_max_order o [(tx 122, VOne (PV 1))] = MkUnknown [tx 122].
 Proof. vm_compute. split; reflexivity. Qed.
+
+(* =====================================================================
+   tag 8 on the wire: what the runner answers for a make() case (the sorter's outcome, the first-occurrence order of the
+   instrumented predicates make() created, computed by the REGENERATED program) is accepted by the evaluation-order judge
+   (tag 7), whenever make() succeeds and every instrumented predicate got at least one value *)
+Lemma pred_factory_mk n f v : pred_factory (mk_pred n f v) = f.
+Proof. unfold mk_pred. destruct (pv_is_not v); reflexivity. Qed.
+
+Definition live_pred (p : pred) : bool := negb (N.eqb (pred_factory p) 0).
+Definition live_pair (nf : node * N) : bool := negb (N.eqb (snd nf) 0).
+
+Lemma live_block kw n f :
+  map pred_name (filter live_pred (made kw (n, f))) =
+  if N.eqb f 0 then [] else repeat n (length (vals_of kw n)).
+Proof.
+  unfold made. cbn [fst snd]. induction (vals_of kw n) as [|v l IH]; cbn [map filter length repeat].
+  - destruct (N.eqb f 0); reflexivity.
+  - unfold live_pred at 1. rewrite pred_factory_mk. destruct (N.eqb f 0) eqn:E; cbn [negb].
+    + exact IH.
+    + cbn [map]. rewrite pred_name_mk, IH. reflexivity.
+Qed.
+
+Lemma filter_ne_repeat n m k : m <> n -> filter (fun y => negb (text_eqb y n)) (repeat m k) = repeat m k.
+Proof.
+  intros H. induction k as [|k IH]; cbn [repeat filter]; [reflexivity|].
+  apply text_eqb_neq in H. rewrite H. cbn [negb]. rewrite IH. reflexivity.
+Qed.
+
+Lemma filter_idem {A} (p : A -> bool) l : filter p (filter p l) = filter p l.
+Proof.
+  induction l as [|y l IH]; cbn [filter]; [reflexivity|].
+  destruct (p y) eqn:E; cbn [filter]; rewrite ?E, IH; reflexivity.
+Qed.
+
+Lemma dedupe_repeat_app n k rest :
+  dedupe (repeat n (S k) ++ rest) = n :: filter (fun y => negb (text_eqb y n)) (dedupe rest).
+Proof.
+  induction k as [|k IH]; [reflexivity|].
+  change (repeat n (S (S k)) ++ rest) with (n :: (repeat n (S k) ++ rest)). cbn [dedupe]. rewrite IH.
+  cbn [filter]. rewrite text_eqb_refl. cbn [negb].
+  f_equal. apply filter_idem.
+Qed.
+
+Lemma filter_id_notin n l : ~ In n l -> filter (fun y => negb (text_eqb y n)) l = l.
+Proof.
+  induction l as [|y l IH]; intros H; cbn [filter]; [reflexivity|].
+  destruct (text_eqb_spec y n) as [->|Hne]; [exfalso; apply H; left; reflexivity|].
+  cbn [negb]. rewrite IH; [reflexivity|]. intros Hi. apply H. right. exact Hi.
+Qed.
+
+Lemma make_eval_names kw : forall ordered,
+  NoDup (map fst ordered) ->
+  (forall n f, In (n, f) ordered -> f <> 0%N -> vals_of kw n <> []) ->
+  dedupe (map pred_name (filter live_pred (flat_map (made kw) ordered))) = map fst (filter live_pair ordered).
+Proof.
+  induction ordered as [|[n f] o IH]; intros Hnd Hv; [reflexivity|].
+  cbn [map fst] in Hnd. inversion Hnd as [|? ? Hnot Hnd']; subst.
+  cbn [flat_map]. rewrite filter_app, map_app, live_block. cbn [filter]. unfold live_pair at 1. cbn [snd].
+  assert (IH' := IH Hnd' (fun m g Hm => Hv m g (or_intror Hm))).
+  destruct (N.eqb f 0) eqn:E; cbn [negb app].
+  - exact IH'.
+  - assert (Hf : f <> 0%N) by (apply N.eqb_neq; exact E).
+    pose proof (Hv n f (or_introl eq_refl) Hf) as Hne.
+    destruct (vals_of kw n) as [|v l]; [congruence|]. cbn [length].
+    rewrite dedupe_repeat_app, IH'. cbn [map fst]. f_equal.
+    apply filter_id_notin. intros Hin. apply Hnot.
+    apply in_map_iff in Hin. destruct Hin as (x & Hx & Hxin). apply filter_In in Hxin.
+    apply in_map_iff. exists x. tauto.
+Qed.
+
+Theorem wire_make_judged k adds kw :
+  let s := preds_scenario k adds in
+  (forall ordered, sorted s = Sorted ordered ->
+     (exists order ps ph, gen_pl_make pl_max_order (Sorted ordered) kw = MkOk order ps ph) /\
+     (forall n f, In (n, f) ordered -> f <> 0%N -> vals_of kw n <> [])) ->
+  let '(o, ev, mk) := make_obs s kw in judge_preds k adds o ev = Some true.
+Proof.
+  intros s H. unfold make_obs. cbv zeta. unfold judge_preds.
+  rewrite get_outcome_put by apply sorted_never_internal. cbn [obind].
+  rewrite get_texts_vtexts. cbn [obind].
+  pose proof (preds_scenario_judged k adds) as HJ. fold s in HJ. rewrite HJ. cbn [andb]. f_equal.
+  destruct (sorted s) as [ordered|l|l|l|] eqn:Es; try reflexivity.
+  destruct (H ordered eq_refl) as ((order & ps & ph & Hm) & Hv). rewrite Hm. cbn [make_eval_order].
+  rewrite gen_pl_make_is_model in Hm.
+  assert (Hnd : NoDup (map fst ordered)).
+  { unfold s in Es. rewrite preds_scenario_ops in Es. apply (sorted_perm_ops _ _ _ Es). }
+  destruct (make_creates _ _ _ _ _ _ Hnd Hm) as (-> & _).
+  fold live_pred. rewrite (make_eval_names kw ordered Hnd Hv).
+  unfold eval_order. fold live_pair. apply texts_eqb_refl.
+Qed.
+
+Example ex_wire_make :
+  let adds := [(tx 112, 1%N, HNone, HNone); (tx 113, 2%N, HNone, HOne (tx 112))] in
+  let kw := [(tx 112, VSeq [PV 1; PNot 2]); (tx 113, VOne (PV 3))] in
+  (let '(o, ev, mk) := make_obs (preds_scenario PSubscriber adds) kw in
+   ev = vtexts [tx 113; tx 112] /\ judge_preds PSubscriber adds o ev = Some true)
+  /\ judge_preds PSubscriber adds (put_outcome (sorted (preds_scenario PSubscriber adds))) (vtexts [tx 112; tx 113]) = Some false.
+Proof. vm_compute. repeat split; reflexivity. Qed.
+
+(* the hypotheses of wire_make_judged are satisfiable *)
+Example ex_wire_make_hyp :
+  let adds := [(tx 112, 1%N, HNone, HNone); (tx 113, 2%N, HNone, HOne (tx 112))] in
+  let kw := [(tx 112, VSeq [PV 1; PNot 2]); (tx 113, VOne (PV 3))] in
+  forall ordered, sorted (preds_scenario PSubscriber adds) = Sorted ordered ->
+     (exists order ps ph, gen_pl_make pl_max_order (Sorted ordered) kw = MkOk order ps ph) /\
+     (forall n f, In (n, f) ordered -> f <> 0%N -> vals_of kw n <> []).
+Proof.
+  cbv zeta. intros ordered E. vm_compute in E. injection E as <-. split.
+  - eexists. eexists. eexists. vm_compute. reflexivity.
+  - intros n f Hin Hf. destruct Hin as [H|[H|[]]]; injection H as <- <-; vm_compute; discriminate.
+Qed.
